@@ -121,7 +121,7 @@ class _RemoveUnused:
 
 def _sweep_c08(tier, seed):
     from harness.sweeps import deck_sweep
-    return deck_sweep('C08', tier, seed, families=('level0', 'fill', 'lattice'), n_quick=32, n_thorough=400)
+    return deck_sweep('C08', tier, seed, families=('level0', 'fill', 'lattice', 'hexlattice'), n_quick=32, n_thorough=400)
 
 
 BOUNDED = {'C08': [_sweep_c08]}
